@@ -14,6 +14,12 @@ use std::sync::Mutex;
 
 /// The 14 datagram classes (simplest first).
 pub fn alphabet(seed: u64) -> Vec<(&'static str, Vec<u8>)> {
+    alphabet_multi(seed).into_iter().filter(|c| c.1.len() == 1).map(|c| (c.0, c.1[0].clone())).collect()
+}
+
+/// Datagram classes; a class is one datagram, or a few valid requests arriving together (each from
+/// its own socket) so that state left behind by a multi-request batch meets the next batch.
+pub fn alphabet_multi(seed: u64) -> Vec<(&'static str, Vec<Vec<u8>>)> {
     let mut rng = Rng(seed ^ 0xc08);
     let r = rng.bytes(65507);
     let classic_nonce = |nl: usize| -> Vec<u8> { classic_request(&nonce(40 + nl as u64, nl), 1024) };
@@ -25,7 +31,7 @@ pub fn alphabet(seed: u64) -> Vec<(&'static str, Vec<u8>)> {
     magic_garbage.extend_from_slice(&r[..1016]);
     // IETF request whose NONC is empty (frame and VER are fine)
     let ietf_empty_nonce = ietf_request(&VER_IETF13, None, &[], 1024);
-    vec![
+    let single: Vec<(&'static str, Vec<u8>)> = vec![
         ("empty", vec![]),
         ("one-byte", vec![0x42]),
         ("random-1023", r[..1023].to_vec()),
@@ -41,17 +47,29 @@ pub fn alphabet(seed: u64) -> Vec<(&'static str, Vec<u8>)> {
         ("ietf-header-mutated", ietf_mut),
         ("magic-plus-garbage", magic_garbage),
         ("ietf-empty-nonce", ietf_empty_nonce),
-    ]
+    ];
+    let mut out: Vec<(&'static str, Vec<Vec<u8>>)> = single.into_iter().map(|(n, d)| (n, vec![d])).collect();
+    let c = |k: u64| classic_request(&nonce(0x800 + k, 64), 1024);
+    let i = |k: u64| ietf_request(&VER_IETF13, None, &nonce(0x900 + k, 32), 1024);
+    out.push(("2x-valid-classic", vec![c(1), c(2)]));
+    out.push(("3x-valid-classic", vec![c(3), c(4), c(5)]));
+    out.push(("2x-valid-ietf", vec![i(1), i(2)]));
+    out.push(("3x-valid-ietf", vec![i(3), i(4), i(5)]));
+    out
 }
 
-pub fn run_history(cfg: &SrvCfg, hist: &[usize], al: &[(&'static str, Vec<u8>)]) -> Result<Option<(String, String)>, String> {
+pub fn run_history(cfg: &SrvCfg, hist: &[usize], al: &[(&'static str, Vec<Vec<u8>>)]) -> Result<Option<(String, String)>, String> {
     let mut p = Prober::new(cfg)?;
-    let clients: Vec<Client> = hist.iter().map(|_| Client::new()).collect();
+    let mut clients: Vec<Client> = vec![];
     for (k, &a) in hist.iter().enumerate() {
-        if !clients[k].send(p.srv.addr, &al[a].1) {
-            return Err("send failed".into());
+        for d in &al[a].1 {
+            let c = Client::new();
+            if !c.send(p.srv.addr, d) {
+                return Err("send failed".into());
+            }
+            clients.push(c);
         }
-        // step after every datagram: each datagram is its own poll cycle
+        // step after every class: each class is its own poll cycle
         if let Err(pn) = p.srv.step() {
             return Ok(Some(("panic".into(), format!("process_events panicked after datagram #{} ({}): {}", k, al[a].0, pn))));
         }
@@ -59,7 +77,31 @@ pub fn run_history(cfg: &SrvCfg, hist: &[usize], al: &[(&'static str, Vec<u8>)])
     if let Err(pn) = p.srv.settle() {
         return Ok(Some(("panic".into(), format!("process_events panicked while idle: {}", pn))));
     }
-    // sentinels of both protocols
+    sentinels(&mut p)
+}
+
+/// After the sequence: a pair of valid requests of each protocol queued together (so that a batch
+/// of two meets whatever state the sequence left behind), then one of each alone. All must be
+/// answered (fault 0: with an authentic reply).
+fn sentinels(p: &mut Prober) -> Result<Option<(String, String)>, String> {
+    for v in [rtref::Version::Classic, rtref::Version::Ietf13] {
+        let reqs: Vec<Vec<u8>> = (0..2).map(|k| rtref::responder::std_request(v, &nonce(0xfeed_1000 + k + p.sentinel_ctr * 4 + if v == rtref::Version::Classic { 0 } else { 2 }, v.nonce_len()))).collect();
+        p.sentinel_ctr += 1;
+        let cs: Vec<Client> = reqs.iter().map(|_| Client::new()).collect();
+        for (c, r) in cs.iter().zip(&reqs) {
+            c.send(p.srv.addr, r);
+        }
+        if let Err(pn) = p.srv.settle() {
+            return Ok(Some(("panic".into(), format!("process_events panicked on a pair of valid {} requests after the sequence: {}", v.name(), pn))));
+        }
+        for (c, r) in cs.iter().zip(&reqs) {
+            let got = c.drain();
+            let ok = got.len() == 1 && (p.srv.cfg.fault > 0 || rtref::verifier::authentic(&got[0].0, r, v, Some(&p.lt_pk), rtref::verifier::SERVER_VIEW).is_ok());
+            if !ok {
+                return Ok(Some(("sentinel-unanswered".into(), format!("pair of valid {} requests after the sequence not answered correctly ({} datagrams)", v.name(), got.len()))));
+            }
+        }
+    }
     for _ in 0..2 {
         match p.sentinel() {
             Ok(true) => {}
@@ -71,21 +113,20 @@ pub fn run_history(cfg: &SrvCfg, hist: &[usize], al: &[(&'static str, Vec<u8>)])
 }
 
 /// Same but all datagrams queued before the first step (one poll cycle sees the whole sequence).
-pub fn run_history_burst(cfg: &SrvCfg, hist: &[usize], al: &[(&'static str, Vec<u8>)]) -> Result<Option<(String, String)>, String> {
+pub fn run_history_burst(cfg: &SrvCfg, hist: &[usize], al: &[(&'static str, Vec<Vec<u8>>)]) -> Result<Option<(String, String)>, String> {
     let mut p = Prober::new(cfg)?;
-    let clients: Vec<Client> = hist.iter().map(|_| Client::new()).collect();
-    for (k, &a) in hist.iter().enumerate() {
-        clients[k].send(p.srv.addr, &al[a].1);
+    let mut clients: Vec<Client> = vec![];
+    for &a in hist.iter() {
+        for d in &al[a].1 {
+            let c = Client::new();
+            c.send(p.srv.addr, d);
+            clients.push(c);
+        }
     }
     if let Err(pn) = p.srv.settle() {
         return Ok(Some(("panic".into(), format!("process_events panicked on queued sequence: {}", pn))));
     }
-    for _ in 0..2 {
-        if !p.sentinel()? {
-            return Ok(Some(("sentinel-unanswered".into(), "valid request after the sequence not answered correctly".into())));
-        }
-    }
-    Ok(None)
+    sentinels(&mut p)
 }
 
 fn panic_site(msg: &str) -> &'static str {
@@ -102,7 +143,7 @@ pub fn run(ctx: &Ctx) -> Result<(), String> {
     ctx.set_level("model_checking");
     inproc::init();
     inproc::kernel_selftest(70)?;
-    let al = alphabet(ctx.seed);
+    let al = alphabet_multi(ctx.seed);
     let d = ctx.tier.pick(2usize, 3);
     // all sequences of length 1..=d
     let mut hists: Vec<Vec<usize>> = vec![];
@@ -159,7 +200,7 @@ pub fn run(ctx: &Ctx) -> Result<(), String> {
                                 let class = format!("{}@{}", names.join("+"), if level >= log::LevelFilter::Debug { "debug-or-trace" } else { "upto-info" });
                                 ctx.violation(&clause, panic_site(&msg), &class,
                                     json!({"kind":"sequence","classes":names,"original":h.iter().map(|&a| al[a].0).collect::<Vec<_>>(),"queued_before_first_step":burst,"log_level":lv,"fault":f,"batch_size":bs,"message":msg,
-                                           "datagrams": hm.iter().map(|&a| hex_trunc(&al[a].1, 1600)).collect::<Vec<_>>()}));
+                                           "datagrams": hm.iter().flat_map(|&a| al[a].1.iter().map(|d| hex_trunc(d, 1600))).collect::<Vec<_>>()}));
                             }
                         }
                     }
@@ -222,7 +263,7 @@ pub fn run(ctx: &Ctx) -> Result<(), String> {
     ctx.cov("log_records_formatted", json!(inproc::LOG_RECORDS.load(Relaxed)));
     ctx.cov("exhaustive", json!(true));
     ctx.cov("bound", json!({"sequence_length": d, "alphabet": al.iter().map(|a| a.0).collect::<Vec<_>>(), "log_levels": 6, "fault_percentage": faults, "batch_size": bss, "extra_single_datagrams_at_trace": extra}));
-    ctx.cov("rule", json!(format!("all sequences of length 1..={} over {} datagram classes, each executed twice (stepping after every datagram; all queued before the first step) on a fresh real in-process Server, for every log level Off..Trace (a capturing logger formats every enabled record) x fault_percentage {{0,50}} x batch_size {{1,2,64}}; after the sequence two valid sentinel requests (one per protocol) must be answered (fault 0: with an authentic reply). Oracle: process_events never unwinds, sentinels answered. A failing history is minimised by dropping events. states = histories x configurations; every one executes on the implementation.", d, al.len())));
+    ctx.cov("rule", json!(format!("all sequences of length 1..={} over {} datagram classes (15 single datagrams + 2/3 valid requests of one protocol arriving together), each executed twice (stepping after every datagram; all queued before the first step) on a fresh real in-process Server, for every log level Off..Trace (a capturing logger formats every enabled record) x fault_percentage {{0,50}} x batch_size {{1,2,64}}; after the sequence a pair of valid requests of each protocol queued together and then one of each alone must be answered (fault 0: with an authentic reply). Oracle: process_events never unwinds, sentinels answered. A failing history is minimised by dropping events. states = histories x configurations; every one executes on the implementation.", d, al.len())));
     ctx.sample(json!({"classes":["classic-empty-nonce"],"log_level":"DEBUG","fault":0,"batch_size":64}));
     ctx.sample(json!({"classes":["random-65507","valid-ietf","ietf-header-mutated"],"log_level":"TRACE","fault":50,"batch_size":2}));
     ctx.assume("log level is process-global in the `log` crate: levels are explored one after another, all worker threads sharing the level");
@@ -246,7 +287,7 @@ pub fn replay_case(c: &Value) -> Result<Option<String>, String> {
         Some("datagram") => vec![crypto::unhex(c["hex"].as_str().ok_or("hex")?)],
         _ => return Err("kind".into()),
     };
-    let al: Vec<(&'static str, Vec<u8>)> = dgs.into_iter().map(|d| ("replayed", d)).collect();
+    let al: Vec<(&'static str, Vec<Vec<u8>>)> = dgs.into_iter().map(|d| ("replayed", vec![d])).collect();
     let hist: Vec<usize> = (0..al.len()).collect();
     let burst = c["queued_before_first_step"].as_bool().unwrap_or(false);
     let r = crate::util::on_named_thread("worker-0", || if burst { run_history_burst(&cfg, &hist, &al) } else { run_history(&cfg, &hist, &al) })?;
